@@ -1085,6 +1085,11 @@ func parseSideChecks(r *core.Run) {
 			ref, total, seq = e[c.Intn(5)], e[c.Intn(5)], e[c.Intn(5)]
 		}
 		body := c.Blob(c.Size(20, 0, 1), "any")
+		if c.Prob(1, 5) {
+			// "all strings": also contents longer than one SMS, lengths around the powers of two an 8- or 16-bit
+			// length computation wraps at
+			body = c.Blob([]int{134, 153, 249, 250, 255, 256, 257, 505, 506, 511, 512, 600, 65530, 65536}[c.Intn(14)]+c.Intn(8)-4, "any")
+		}
 		var s []byte
 		wantValid := true
 		wantRef := ref
